@@ -102,12 +102,23 @@ class P:                  # inferred by rules; three fields for positional-bindi
 
 @symbol
 @dataclass(eq=False)
+class PF:                 # inferable class whose instances can be falsy (like a container defining __len__)
+    a: Any = None
+    b: Any = None
+    c: Any = None
+
+    def __bool__(self):
+        return bool(self.a)
+
+
+@symbol
+@dataclass(eq=False)
 class R:                  # second inferable class
     a: Any = None
     b: Any = None
 
 
-CLASSES = {c.__name__: c for c in (A, B, Base, Mid, Leaf, Other, P, R)}
+CLASSES = {c.__name__: c for c in (A, B, Base, Mid, Leaf, Other, P, PF, R)}
 
 
 class Boom(Exception):
